@@ -615,8 +615,9 @@ def rule_blocksoft(ctx):
 
 def rules(tier):
     from . import carry, precision, layout, c04, zeroskip, axisrole
-    from . import inplace
-    return [inplace.make_rule("R-C11-overwrite", lambda f: f["d"]["krate"] in ("linfa_elasticnet", "linfa_linear"), 3, "the linear models (elastic net, multi-task elastic net, OLS, isotonic, GLM)"),
+    from . import inplace, sizeroute
+    return [sizeroute.make_rule("R-C11-sizeroute", lambda f: f["d"]["krate"] in ("linfa_elasticnet", "linfa_linear"), "the linear models"),
+            inplace.make_rule("R-C11-overwrite", lambda f: f["d"]["krate"] in ("linfa_elasticnet", "linfa_linear"), 3, "the linear models (elastic net, multi-task elastic net, OLS, isotonic, GLM)"),
             rule_gap, rule_blocksoft, zeroskip.make_rule("R-C11-zeroskip", lambda f: f["d"]["krate"] == "linfa_elasticnet" and f["d"]["name"] in ("coordinate_descent", "block_coordinate_descent"), ("r",), 4, "the residual in the coordinate descents"),
             zeroskip.make_exact_rule("R-C11-scale", lambda f: f["d"]["krate"] == "linfa_elasticnet" and f["d"]["name"] in ("coordinate_descent", "block_coordinate_descent"), ("r",), 6, "the residual"),
             rule_sweep, axisrole.make_rule("R-C11-axes", "linfa_elasticnet", {"duality_gap_mtl": {"x": ("samples", "features"), "y": ("samples", "tasks"), "w": ("features", "tasks"), "r": ("samples", "tasks")},
